@@ -8,6 +8,7 @@ import (
 	"sort"
 	"strings"
 	"sync"
+	"time"
 
 	"github.com/creachadair/jrpc2"
 	"github.com/creachadair/jrpc2/channel"
@@ -263,7 +264,9 @@ func c17dynamic(c *vt.Ctx, id string, dis bool) {
 	}
 	mon := &peer.Mon{C: c, Log: peer.NewLog()}
 	cliEnd, srvEnd := vchan.NewPair("cli", "srv", mon)
-	srv := jrpc2.NewServer(d, &jrpc2.ServerOptions{DisableBuiltin: dis})
+	// a configured start time is what rpc.serverInfo reports, in every session of the server
+	startTime := time.Date(2020, 5, 17, 9, 30, 0, 0, time.UTC).Add(time.Duration(r.IntN(100000)) * time.Second)
+	srv := jrpc2.NewServer(d, &jrpc2.ServerOptions{DisableBuiltin: dis, StartTime: startTime})
 	srv.Start(srvEnd)
 	cli := jrpc2.NewClient(cliEnd, nil)
 	defer func() { cli.Close(); srv.WaitStatus() }()
@@ -272,18 +275,24 @@ func c17dynamic(c *vt.Ctx, id string, dis bool) {
 
 	checkInfo := func(when string) {
 		want := d.Names()
+		if st := srv.ServerInfo().StartTime; !st.Equal(startTime) {
+			c.Failf("%s, %s: Server.ServerInfo().StartTime is %v, ServerOptions.StartTime was %v", desc, when, st, startTime)
+		}
 		got := srv.ServerInfo().Methods
 		if !c17equalStrings(got, want) {
 			c.Failf("%s, %s: Server.ServerInfo().Methods is %q, the assigner's methods are %q", desc, when, c17clip(got), c17clip(want))
 		}
 		if !dis {
 			var info struct {
-				Methods []string `json:"methods"`
+				Methods   []string  `json:"methods"`
+				StartTime time.Time `json:"startTime"`
 			}
 			if err := cli.CallResult(ctx, "rpc.serverInfo", nil, &info); err != nil {
 				c.Failf("%s, %s: rpc.serverInfo failed: %v", desc, when, err)
 			} else if !c17equalStrings(info.Methods, want) {
 				c.Failf("%s, %s: rpc.serverInfo reports methods %q, the assigner's methods are %q", desc, when, c17clip(info.Methods), c17clip(want))
+			} else if !info.StartTime.Equal(startTime) {
+				c.Failf("%s, %s: rpc.serverInfo reports start time %v, ServerOptions.StartTime was %v", desc, when, info.StartTime, startTime)
 			}
 		}
 		c.Count("serverinfo_after_change_checked", 1)
@@ -346,6 +355,18 @@ func c17dynamic(c *vt.Ctx, id string, dis bool) {
 		checkInfo(when)
 		checkDispatch(when)
 		c.Distinct(fmt.Sprintf("D|%v|%s|%d|%v", dis, id, round, d.Names()))
+		if round == 2 && !c.Failed() {
+			// the connection ends and the same server is started on a new one: same
+			// assigner, same configured start time, same dispatch
+			cli.Close()
+			srv.WaitStatus()
+			cliEnd, srvEnd = vchan.NewPair("cli", "srv", mon)
+			srv.Start(srvEnd)
+			cli = jrpc2.NewClient(cliEnd, nil)
+			checkInfo(when + " and a restart on a fresh channel")
+			checkDispatch(when + " and a restart on a fresh channel")
+			c.Count("serverinfo_after_restart_checked", 1)
+		}
 	}
 }
 
